@@ -439,9 +439,69 @@ func checkLimit(c *run.Ctx, in Input) {
 	c.Nontrivial(fmt.Sprintf("limit|%s|%d|%d", in.Shape, in.Limit, in.Depth))
 }
 
+// checkLimitCall: a host function calls back through the Go API (Otto.Call or
+// Value.Call) from depth d under limit L and returns normally whether the call
+// was admitted or refused with a RangeError. Whatever the outcome, every script
+// frame continues with its own variables, nothing is left on the scope stack
+// and the full limit is available afterwards.
+func checkLimitCall(c *run.Ctx, in Input) {
+	vm := otto.New()
+	vm.SetStackDepthLimit(in.Limit)
+	refusals, admitted := 0, 0
+	vm.Set("host", func(call otto.FunctionCall) otto.Value {
+		var v otto.Value
+		var err error
+		if in.Shape == "otto" {
+			v, err = call.Otto.Call("leaf", nil)
+		} else {
+			v, err = call.Argument(0).Call(otto.UndefinedValue())
+		}
+		if err != nil {
+			if ox.ErrClass(err) != "RangeError" {
+				panic(call.Otto.MakeCustomError("Error", "call back failed with "+err.Error()))
+			}
+			refusals++
+			r, _ := otto.ToValue("refused")
+			return r
+		}
+		admitted++
+		return v
+	})
+	src := strings.ReplaceAll("function leaf(){ return 'leaf' } function f(n){ var mine = 'L' + n; if (n <= 0) { var got = host(leaf); return (mine === 'L0' && (got === 'leaf' || got === 'refused')) ? 0 : NaN } var r = 1 + f(n - 1); return mine === 'L' + n ? r : NaN } f(D)", "D", fmt.Sprint(in.Depth))
+	out := ox.Run(vm, src)
+	c.Eval(1)
+	switch {
+	case out.Panic != nil:
+		c.Fail("panic", "limitcall:"+in.Shape, in, "value or RangeError", fmt.Sprint(out.Panic), out.Stack)
+		return
+	case out.Err != nil && ox.ErrClass(out.Err) != "RangeError":
+		c.Fail("mismatch", "limitcall:"+in.Shape, in, "value or RangeError", out.String(), src)
+	case out.Err == nil && out.Val.String() != fmt.Sprint(in.Depth):
+		c.Fail("mismatch", "limitcall:"+in.Shape, in, fmt.Sprintf("every frame continues in its own execution context: %d", in.Depth), out.String(), src)
+	}
+	if d, l := otto.VerifRest(vm); d != 0 || l != 0 {
+		c.Fail("mismatch", "limitcall:rest", in, "scope depth 0, pending labels 0", fmt.Sprintf("scope depth %d, pending labels %d", d, l), "")
+	}
+	again := ox.Run(vm, strings.ReplaceAll(limitShapes["plain"], "D", fmt.Sprint(in.Limit-1)))
+	if in.Limit >= 2 && (again.Err != nil || again.Panic != nil) {
+		c.Fail("mismatch", "limitcall:after", in, "full depth available afterwards", again.String(), "")
+	}
+	switch {
+	case refusals > 0:
+		c.Feature("limitcall:refused-in-host")
+	case admitted > 0:
+		c.Feature("limitcall:admitted")
+	default:
+		c.Feature("limitcall:host-not-reached")
+	}
+	c.Nontrivial(fmt.Sprintf("limitcall|%s|%d|%d", in.Shape, in.Limit, in.Depth))
+}
+
 func checkOne(c *run.Ctx, in Input) {
 	c.Announce(in)
 	switch in.Kind {
+	case "limitcall":
+		checkLimitCall(c, in)
 	case "inject":
 		checkInject(c, in)
 	case "hostpanic":
@@ -473,6 +533,13 @@ func exec(c *run.Ctx, i int) {
 			for d := L - 2; d <= L+2; d++ {
 				if d >= 1 {
 					checkOne(c, Input{Kind: "limit", Limit: L, Depth: d, Shape: shapes[r.Intn(len(shapes))]})
+				}
+			}
+		}
+		for _, L := range []int{2, 3, 5, 6, 12, 50} {
+			for d := L - 6; d <= L+1; d++ {
+				if d >= 0 {
+					checkOne(c, Input{Kind: "limitcall", Limit: L, Depth: d, Shape: []string{"otto", "value"}[r.Intn(2)]})
 				}
 			}
 		}
